@@ -62,3 +62,87 @@ Definition mode_ok (m : (bool * (bool * bool)) * list step) : bool :=
   list_eqb String.eqb (assigners "rendered_pkg" (snd m)) ["network.render_package"] &&
   list_eqb String.eqb (assigners "rendered_top" (snd m)) ["network.render_network"] &&
   list_eqb out_eqb (outputs (snd m)) (expected_outputs (fst m)).
+
+(* ---------------------------------------------------------------- the hand model of the pipeline and observed runs *)
+(* Second tie (used next to the regenerated step lists, and instead of them when a rewrite of cli.py leaves the
+   translator's fragment): the pipeline written down by hand, and a checker that compares an OBSERVED run of the real
+   command line (harness/clitrace_runner.py: stages entered, files present at each entry, what was emitted) with it. *)
+From FV Require Import Check CheckProofs.
+
+Definition mode := (bool * (bool * bool))%type.            (* -o given, --only-pkg, --only-top *)
+Definition build_stages : list string :=
+  ["parse_config"; "network.create_network"; "network.compile_network"; "network.gen_routing_info"].
+Definition render_stages : list string := ["network.render_package"; "network.render_network"].
+Definition stage_args (n : string) : string := if str_eqb n "parse_config" then "Network, args.config" else "".
+Definition out_step (o : string * string) : step :=
+  if str_eqb (fst o) "stdout" then ("call", ("print", snd o)) else ("write", (fst o, snd o)).
+Definition cli_model (m : mode) : list step :=
+  map (fun n => ("call", (n, stage_args n))) (build_stages ++ render_stages) ++ map out_step (expected_outputs m).
+
+Definition all_modes : list mode :=
+  flat_map (fun a => flat_map (fun b => map (fun c => (a, (b, c))) [false; true]) [false; true]) [true; false].
+
+Lemma all_modes_complete m : In m all_modes.
+Proof. destruct m as [[|] [[|] [|]]]; cbn; tauto. Qed.
+
+(* an observed run: (stage, argument summary, names of the files in the output directory when the stage was entered),
+   then what the run emitted as (channel, content) with the model's names *)
+Record cli_run := { cr_calls : list (string * (string * list string)); cr_outs : list (string * string) }.
+
+Definition ends_with (suf s : string) : bool :=
+  let n := String.length s in let k := String.length suf in
+  Nat.leb k n && str_eqb (substring (n - k) k s) suf.
+Definition is_stage (n : string) : bool := existsb (str_eqb n) (build_stages ++ render_stages).
+Definition run_steps (r : cli_run) : list step :=
+  map (fun c => ("call", (fst c, fst (snd c)))) (filter (fun c => is_stage (fst c)) (cr_calls r)) ++ map out_step (cr_outs r).
+Definition step_eqb (a b : step) : bool :=
+  str_eqb (fst a) (fst b) && str_eqb (fst (snd a)) (fst (snd b)) && str_eqb (snd (snd a)) (snd (snd b)).
+Definition clean_at_entries (r : cli_run) : bool :=
+  forallb (fun c => forallb (fun f => negb (ends_with ".sv" f)) (snd (snd c))) (cr_calls r).
+
+Definition chk_cli_run (m : mode) (r : cli_run) : fails :=
+  guard (list_eqb step_eqb (run_steps r) (cli_model m)) "cli-steps"
+        "the stages entered (with their arguments) and the outputs emitted are not those of the pipeline model for this mode" ++
+  guard (clean_at_entries r) "file-before-stage"
+        "a generated file exists in the output directory when a stage of the generator is entered (a failure of that stage would leave it behind)".
+
+(* a run cut short by a failure injected at the entry of a stage: nothing may be left behind, the exit status is not 0 *)
+Definition chk_cli_failed (rc : Z) (left_behind : list string) : fails :=
+  guard (negb (rc =? 0)) "failure-exit-status" "a run whose stage raised ends with exit status 0" ++
+  guard (forallb (fun f => negb (ends_with ".sv" f)) left_behind) "output-after-failure"
+        "a run whose stage raised leaves a generated file behind".
+
+Lemma step_eqb_eq a b : step_eqb a b = true -> a = b.
+Proof.
+  destruct a as (a1 & a2 & a3), b as (b1 & b2 & b3). unfold step_eqb. cbn [fst snd].
+  rewrite !andb_true_iff. intros ((H1 & H2) & H3). apply str_eqb_eq in H1, H2, H3. subst. reflexivity.
+Qed.
+Lemma list_step_eqb_eq : forall l k, list_eqb step_eqb l k = true -> l = k.
+Proof.
+  induction l as [|x xs IH]; intros [|y ys]; cbn; try discriminate; auto.
+  rewrite andb_true_iff. intros (A & B). apply step_eqb_eq in A. subst. f_equal. auto.
+Qed.
+
+Theorem cli_model_writes_last m : writes_last (cli_model m) = true.
+Proof. destruct m as [[|] [[|] [|]]]; vm_compute; reflexivity. Qed.
+Theorem cli_model_outputs m : outputs (cli_model m) = expected_outputs m.
+Proof. destruct m as [[|] [[|] [|]]]; vm_compute; reflexivity. Qed.
+Theorem cli_model_no_output_on_failure m k s :
+  nth_error (cli_model m) k = Some s -> is_call s = true -> written_if_fails_at (cli_model m) k = [].
+Proof. apply no_output_on_failure, cli_model_writes_last. Qed.
+(* the model is built before any rendering, by the same argument-free calls in every mode *)
+Theorem cli_model_mode_free m m' :
+  filter is_call (firstn 6 (cli_model m)) = filter is_call (firstn 6 (cli_model m')).
+Proof. destruct m as [[|] [[|] [|]]], m' as [[|] [[|] [|]]]; vm_compute; reflexivity. Qed.
+
+Theorem chk_cli_run_sound m r : chk_cli_run m r = [] ->
+  run_steps r = cli_model m /\ outputs (run_steps r) = expected_outputs m /\ clean_at_entries r = true /\
+  forall k s, nth_error (run_steps r) k = Some s -> is_call s = true -> written_if_fails_at (run_steps r) k = [].
+Proof.
+  unfold chk_cli_run. intros H. apply app_eq_nil in H. destruct H as (H1 & H2).
+  unfold guard in H1, H2.
+  destruct (list_eqb step_eqb (run_steps r) (cli_model m)) eqn:E1; [|discriminate].
+  destruct (clean_at_entries r) eqn:E2; [|discriminate].
+  apply list_step_eqb_eq in E1. rewrite E1. repeat split; auto using cli_model_outputs.
+  intros k s. apply cli_model_no_output_on_failure.
+Qed.
